@@ -17,4 +17,5 @@ CONSTANTS
   Mut = ""
 VIEW View
 INVARIANTS AtMostOnceNew NoIrrelevant NeverBoth CancImpliesUnsafe StickyUnsafe ProofDepth IndexExact ConflictsFlagged NoFalseFlag ConfirmedHasProof Complete SafeWarranted
+PROPERTIES TrustSticky
 CHECK_DEADLOCK FALSE
